@@ -30,8 +30,9 @@ def main():
     except MachineryError as exc:
         common.die_machinery(str(exc))
     except Exception:  # pylint: disable=broad-except
-        traceback.print_exc()
-        common.die_machinery("unexpected exception in harness")
+        tb = traceback.format_exc()
+        print(tb, file=sys.stderr)
+        common.die_machinery("unexpected exception in harness\n" + tb)
     sys.stdout.flush()
     os._exit(rc)
 
